@@ -46,6 +46,10 @@ UPPER_WORDS = """RED GREEN BLUE CYAN AMBER IDLE BUSY DONE FAIL WARN LOW MID HIGH
 SOUTH FAST SLOW HOT COLD DRY WET ONE TWO SIX TEN UNSET READY ARMED SAFE 50HZ 2D 3V3 X86 V2 9600 RGB8""".split()
 # (UPPER_CASE words may carry digits: constants and enum members are emitted verbatim in every language)
 
+# digit components of field names (opt-in).  Only whole components: the compiler's own snake_case - which the linter and the Go JSON
+# tag use - splits letters from digits (`x1` -> `x_1`), so `x1`/`zone10`/`2nd` are not style-guide names; `rate_2`, `ch_0_raw` are.
+SNAKE_DIGIT_WORDS = "0 1 2 7 10 50 255".split()
+
 PROTO_WORDS = "drone pen shared common base core link frame telem ctrl nav pwr".split()
 
 
@@ -66,9 +70,10 @@ class NamePool:
     """Draws fresh names of each style; guarantees global uniqueness of the
     case-folded, underscore-stripped form so flattened names cannot collide."""
 
-    def __init__(self, rng, digits: float = 0.0):
+    def __init__(self, rng, digits: float = 0.0, digit_fields: float = 0.0):
         self.rng = rng
         self.used = set()
+        self.digit_fields = digit_fields  # probability that a field name carries a digit component (rate_2, ch_0_raw)
         self.digits = digits  # probability that a PascalCase name ends in a digit (C10/C15 composition slice)
 
     def _norm(self, s: str) -> str:
@@ -106,6 +111,10 @@ class NamePool:
             n = r.choice(SNAKE_WORDS)
             if r.random() < 0.5:
                 n += "_" + r.choice(SNAKE_WORDS)
+            if self.digit_fields and r.random() < self.digit_fields:
+                n += "_" + r.choice(SNAKE_DIGIT_WORDS)
+                if r.random() < 0.3:
+                    n += "_" + r.choice(SNAKE_WORDS)
             if n in RESERVED or pascal_of_snake(n) in GO_METHODS:
                 continue
             if local_used is not None:
